@@ -55,11 +55,14 @@ Definition weight_l (d : list (list fden)) (k : nat) (l : list (list (list fden)
 
 (* 0 fine; 2 a panic or unknown error; 3 the per-type totals of the merged samples are not the sums over the merged
    payloads; 4 some resolved stack carries another weight in the merged profile than in the payloads together.
-   Judged when every payload that takes part is well formed (wf_raw_b); the stack-by-stack comparison when the case
-   has at most [cap] samples *)
+   5 (round 8) the merged message is not closed (closed_b: ids 1..n, every function / location reference and function string
+   index resolves, one value per sample type) -- judged on EVERY answered merge, malformed payloads included (theorem
+   merged_profile_closed).  3 and 4 are judged when every payload that takes part is well formed (wf_raw_b); the
+   stack-by-stack comparison when the case has at most [cap] samples *)
 Definition rw_spec (cap : nat) (c : rwcase) : Z :=
   if Z.eqb (rw_err c) 3 then 2
   else if negb (Z.eqb (rw_err c) 0) then 0
+  else if negb (closed_b (length (p_types (rw_out c))) (rw_out c)) then 5
   else
     let ins := filter merged_in (rw_inputs c) in
     if negb (forallb wf_raw_b ins) then 0
@@ -73,9 +76,10 @@ Definition rw_spec (cap : nat) (c : rwcase) : Z :=
       else if forallb (fun d => forallb (fun k => Z.eqb (wrap64 (weight_l d k wo)) (wrap64 (weight_l d k wi))) (seq 0 nt)) (map fst (wi ++ wo))
       then 0 else 4.
 
-(* the hypothesis of the merge theorem on the payloads: sanitizeProfile of a well-formed payload is [sane] *)
+(* sanitizeProfile of ANY payload is [sane]: a theorem since round 8 (sanitize_sane); still evaluated on every payload of every
+   case, malformed ones included, as a cross-check of the decoder *)
 Definition rw_sane (c : rwcase) : Z * Z :=
-  let ins := filter (fun p => merged_in p && wf_raw_b p) (rw_inputs c) in
+  let ins := rw_inputs c in
   (Z.of_nat (length ins), Z.of_nat (length (filter (fun p => sane_b (sanitize p)) ins))).
 
 (* ------------------------------------------------------------------ wire format *)
